@@ -116,8 +116,9 @@ def catalogue(big=False):
                                {"o": ref("SUB", "y")})], "TOP", {"x": 1}))
     # 8c. three nested pipelines each with its own run-time condition (all false), and two
     #     sibling calls with their own conditions inside: one disabled, one enabled
-    P.append(program("dis_deep", [], [S_echo("A"), S_echo("B"), S_echo("C"), FLAG("F1", False), FLAG("F2", False), FLAG("F3", False),
-                                     FLAG("FA", True), FLAG("FB", False)],
+    for dname, fa, fb in (("dis_deep", True, False), ("dis_deep_ff", False, False), ("dis_deep_ft", False, True)):
+      P.append(program(dname, [], [S_echo("A"), S_echo("B"), S_echo("C"), FLAG("F1", False), FLAG("F2", False), FLAG("F3", False),
+                                     FLAG("FA", fa), FLAG("FB", fb)],
                      [pipeline("P3", "int x, bool da, bool db", "int y, int z",
                                [call("A", binds={"x": self_("x")}, dis=self_("da")),
                                 call("B", binds={"x": self_("x")}, dis=self_("db")),
